@@ -165,7 +165,7 @@ def summarise_kani(data, out):
             {
                 c["function"]
                 for c in checks
-                if c.get("location", {}).get("file", "").find("/w/src/") >= 0 and c["status"] != "Unreachable"
+                if c.get("location", {}).get("file", "").startswith("src/") and c["status"] != "Unreachable"
             }
         )
         res[hid] = {
